@@ -204,15 +204,21 @@ pub(super) fn serialize<'se, W: Write>(
     let mut has_plutus_v1 = false;
     let mut has_plutus_v2 = false;
     let mut has_plutus_v3 = false;
-    let plutus_added_length = match &wit_set.plutus_scripts {
-        Some(scripts) => {
-            has_plutus_v1 = scripts.has_version(&Language::new_plutus_v1());
-            has_plutus_v2 = scripts.has_version(&Language::new_plutus_v2());
-            has_plutus_v3 = scripts.has_version(&Language::new_plutus_v3());
-            (has_plutus_v1 as u64) + (has_plutus_v2 as u64) + (has_plutus_v3 as u64)
-        },
-        _ => 0,
-    };
+    if let Some(scripts) = &wit_set.plutus_scripts {
+        has_plutus_v1 = scripts.has_version(&Language::new_plutus_v1());
+        has_plutus_v2 = scripts.has_version(&Language::new_plutus_v2());
+        has_plutus_v3 = scripts.has_version(&Language::new_plutus_v3());
+    }
+    // a script field whose original bytes are kept is written even when it holds no script
+    // (a present-but-empty field of the input), like the other fields
+    let raw_plutus_v1 = raw_parts.and_then(|x| x.plutus_scripts_v1.as_ref());
+    let raw_plutus_v2 = raw_parts.and_then(|x| x.plutus_scripts_v2.as_ref());
+    let raw_plutus_v3 = raw_parts.and_then(|x| x.plutus_scripts_v3.as_ref());
+    has_plutus_v1 = has_plutus_v1 || raw_plutus_v1.is_some();
+    has_plutus_v2 = has_plutus_v2 || raw_plutus_v2.is_some();
+    has_plutus_v3 = has_plutus_v3 || raw_plutus_v3.is_some();
+    let plutus_added_length =
+        (has_plutus_v1 as u64) + (has_plutus_v2 as u64) + (has_plutus_v3 as u64);
     // a field is written when it is non-empty or when its original bytes are kept,
     // so it has to be counted under exactly the same condition
     fn written<T: NoneOrEmpty>(field: &Option<T>, raw: Option<&Vec<u8>>) -> u64 {
@@ -256,32 +262,26 @@ pub(super) fn serialize<'se, W: Write>(
     }
 
     //no need deduplication here because transaction witness set already has deduplicated plutus scripts
-    if let Some(plutus_scripts) = &wit_set.plutus_scripts {
-        if has_plutus_v1 {
-            if let Some(raw) = raw_parts.as_ref().map(|x| x.plutus_scripts_v1.as_ref()).flatten() {
-                serializer.write_unsigned_integer(3)?;
-                serializer.write_raw_bytes(raw)?;
-            } else {
-                serializer.write_unsigned_integer(3)?;
-                plutus_scripts.serialize_as_set_by_version(false, &Language::new_plutus_v1(), serializer)?;
-            }
+    for (key, present, raw, language) in [
+        (3u64, has_plutus_v1, raw_plutus_v1, Language::new_plutus_v1()),
+        (6u64, has_plutus_v2, raw_plutus_v2, Language::new_plutus_v2()),
+        (7u64, has_plutus_v3, raw_plutus_v3, Language::new_plutus_v3()),
+    ] {
+        if !present {
+            continue;
         }
-        if has_plutus_v2 {
-            if let Some(raw) = raw_parts.as_ref().map(|x| x.plutus_scripts_v2.as_ref()).flatten() {
-                serializer.write_unsigned_integer(6)?;
+        serializer.write_unsigned_integer(key)?;
+        match (raw, &wit_set.plutus_scripts) {
+            (Some(raw), _) => {
                 serializer.write_raw_bytes(raw)?;
-            } else {
-                serializer.write_unsigned_integer(6)?;
-                plutus_scripts.serialize_as_set_by_version(false, &Language::new_plutus_v2(), serializer)?;
             }
-        }
-        if has_plutus_v3 {
-            if let Some(raw) = raw_parts.as_ref().map(|x| x.plutus_scripts_v3.as_ref()).flatten() {
-                serializer.write_unsigned_integer(7)?;
-                serializer.write_raw_bytes(raw)?;
-            } else {
-                serializer.write_unsigned_integer(7)?;
-                plutus_scripts.serialize_as_set_by_version(false, &Language::new_plutus_v3(), serializer)?;
+            (None, Some(plutus_scripts)) => {
+                plutus_scripts.serialize_as_set_by_version(false, &language, serializer)?;
+            }
+            // not reachable: without original bytes a field is only present when scripts exist
+            (None, None) => {
+                serializer.write_tag(258)?;
+                serializer.write_array(cbor_event::Len::Len(0))?;
             }
         }
     }
